@@ -103,11 +103,6 @@ func load(pkgDirs []string, files map[string]string, tags string) (*Loaded, erro
 		return nil, fmt.Errorf("%d load errors", nerr)
 	}
 	prog, spkgs := ssautil.AllPackages(pkgs, ssa.InstantiateGenerics|ssa.SanityCheckFunctions&0)
-	for _, sp := range spkgs {
-		if sp != nil {
-			sp.Build()
-		}
-	}
 	if bp := prog.ImportedPackage("math/big"); bp != nil {
 		bigIntType = bp.Type("Int").Type()
 	} else {
@@ -118,7 +113,7 @@ func load(pkgDirs []string, files map[string]string, tags string) (*Loaded, erro
 
 func defaultOptions() *Options {
 	return &Options{MaxSteps: 5_000_000, MaxDepth: 400, MaxAlloc: 1 << 20, MaxConcretize: 64, SolverKind: "z3", TimeoutMs: 60000,
-		Workers: runtime.NumCPU(), Samples: 20, SkipInit: map[string]bool{}, MaxBigBytes: 80, MaxDecDigits: 80, BigBitopWidth: 256}
+		Workers: runtime.NumCPU(), Samples: 20, SkipInit: map[string]bool{}, MaxBigBytes: 80, MaxDecDigits: 80, BigBitopWidth: 256, MaxInitSteps: 3_000_000}
 }
 
 func main() {
@@ -135,6 +130,7 @@ func main() {
 		maxpaths = flag.Int("maxpaths", 0, "path budget per harness")
 		noreplay = flag.Bool("noreplay", false, "skip native replay / translator validation")
 		vdir     = flag.String("verif", "/verif", "verif dir")
+		fallb    = flag.String("fallback", "z3-new,cvc5", "comma-separated fallback solvers tried one-shot when the primary answers unknown")
 	)
 	flag.Parse()
 	verifDir = *vdir
@@ -150,6 +146,13 @@ func main() {
 	opts.Thorough = *tier == "thorough"
 	opts.SolverLog = *slog
 	opts.MaxPaths = *maxpaths
+	if *fallb != "" {
+		for _, f := range strings.Split(*fallb, ",") {
+			if f != *solver {
+				opts.Fallbacks = append(opts.Fallbacks, f)
+			}
+		}
+	}
 	if *timeout > 0 {
 		opts.TimeoutMs = *timeout
 	} else if opts.Thorough {
@@ -217,6 +220,10 @@ func runProperty(propID, tier, only string, opts *Options, noreplay bool) int {
 		}
 		for _, h := range hs {
 			o := *opts
+			o.SkipInit = map[string]bool{}
+			for _, p := range cfg.SkipInit {
+				o.SkipInit[p] = true
+			}
 			if cfg.MaxPaths > 0 && o.MaxPaths == 0 {
 				o.MaxPaths = cfg.MaxPaths
 			}
